@@ -147,9 +147,11 @@ def run_case(ctx, rng, pandas, s, S, det, tensors, nonvan, e, relrows, outcome, 
     if e["vanishing"] and env in ("plain", "upper", "extras") and rng.random() < 0.4:
         # the user also lists a component that vanishes by symmetry, as zeros: consistent, and omitted from the result like every
         # component below the drop tolerance
-        zero_supplied = int(rng.choice(sorted(e["vanishing"])))
-        nm = SYMS[zero_supplied - 1].upper() if env == "upper" else SYMS[zero_supplied - 1]
-        df[nm] = 0.0
+        zc = sorted(set(e["vanishing"]) - ({extra_bad[0]} if extra_bad else set()))      # (not the column that carries the contradiction)
+        if zc:
+            zero_supplied = int(rng.choice(zc))
+            nm = SYMS[zero_supplied - 1].upper() if env == "upper" else SYMS[zero_supplied - 1]
+            df[nm] = 0.0
     if first_int is not None:
         c0 = SYMS[first_int - 1]
         df[c0] = df[c0].round().astype("int64")
